@@ -134,7 +134,7 @@ func (e *Env) Basic(t *rapid.T) *transaction.Transaction {
 	bal := sim.ViewOf(h.Cur.B).Balance(from.ID)
 	f := fee(t)
 	var txn *transaction.Transaction
-	kind := rapid.SampledFrom([]string{"send", "send", "send", "data", "badtype", "pour", "pour", "refill", "garbage", "garbage", "replay", "skip", "past", "puppet", "puppet", "alias", "ghost"}).Draw(t, "kind")
+	kind := rapid.SampledFrom([]string{"send", "send", "send", "data", "badtype", "pour", "pour", "refill", "garbage", "garbage", "replay", "skip", "past", "puppet", "puppet", "alias", "ghost", "aliasTo"}).Draw(t, "kind")
 	switch kind {
 	case "puppet":
 		e.note("kind/puppet")
@@ -157,6 +157,17 @@ func (e *Env) Basic(t *rapid.T) *transaction.Transaction {
 		} else {
 			e.note("alias/ADMITTED")
 		}
+	case "aliasTo":
+		// a send to an existing account's id with one letter (anywhere in the 64 digits) in upper case: not the
+		// canonical spelling of any account, and the trie does not treat it as the lower-case one
+		rcp := e.recipient(t, from)
+		to := otherCase(rcp, rapid.IntRange(0, 40).Draw(t, "aliasLetter"))
+		if to != rcp {
+			e.note("aliasTo/respelled-recipient")
+			// (the spelling is not registered with the history: a balance read under it would find the
+			// lower-case account's leaf and every per-account oracle would count that account twice)
+		}
+		txn = h.Tx(from, to, Amount(t, "value", bal, uint64(f)), f, transaction.TxnTypeSend, "")
 	case "ghost":
 		// a sender the state has never seen (no account entry): value 0, fee 0, any nonce
 		g := sim.NewWallet("ghost", rapid.IntRange(0, 2).Draw(t, "ghost"))
